@@ -236,7 +236,10 @@ def nodeBranches (n : Node) (inp : Edge) (out : Edge) : List String :=
   | .shift d => tag "shift" ((if d < 0 then ["negative"] else ["positive"]) ++ common)
   | .sample _ dur =>
     tag "sample" ((if dur ≠ 0 then ["duration"] else ["count"]) ++ (if nOut > 0 then ["kept"] else []) ++
-      (if nOut < all.length then ["dropped"] else []) ++ common)
+      (if nOut < all.length then ["dropped"] else []) ++
+      (if dur > 0 && Kap.C16.zeroOff % dur ≠ 0 then ["duration-not-dividing-go-zero-offset"] else []) ++
+      (if dur > 0 && all.any (fun p => onGoBoundary p.time dur && p.time % dur ≠ 0) then ["go-boundary-kept-not-unix-multiple"] else []) ++
+      (if dur > 0 && all.any (fun p => !onGoBoundary p.time dur && p.time % dur == 0) then ["unix-multiple-dropped"] else []) ++ common)
   | .derivative c =>
     let cases := inPts.flatMap (fun ps => (List.range ps.length).map (fun i =>
       let p := ps.getD i default
@@ -277,7 +280,7 @@ def nodeBranches (n : Node) (inp : Edge) (out : Edge) : List String :=
   | .flatten c =>
     let cases := all.map (fun p => if c.on.all (fun t => (aget p.tags t).isSome) then "has-tags"
       else if (c.on.head?.bind (fun t => aget p.tags t)).isSome then "missing-later-tag" else "missing-first-tag")
-    tag "flatten" (cases.eraseDups ++ (if c.tol ≠ 0 then ["tolerance"] else []) ++ (if c.drop then ["drop-name"] else []) ++
+    tag "flatten" (cases.eraseDups ++ (if c.tol ≠ 0 then ["tolerance"] else []) ++ (if c.tol > 0 && Kap.C16.zeroOff % c.tol ≠ 0 then ["tolerance-not-dividing-go-zero-offset"] else []) ++ (if c.drop then ["drop-name"] else []) ++
       (if nOut > 0 then ["emit"] else []) ++ (if repeated then ["bucket-of-several"] else []) ++
       (if c.on.length ≥ 2 then ["multi-dim"] else []) ++ common)
   | .combine c =>
@@ -287,7 +290,7 @@ def nodeBranches (n : Node) (inp : Edge) (out : Edge) : List String :=
     tag "combine" ((if bks.any (fun b => b.length < c.exprs.length) then ["n-lt-k"] else []) ++
       (if bks.any (fun b => b.length > c.exprs.length) then ["n-gt-k"] else []) ++
       (if bks.any (fun b => combineGreedyMisses c b) then ["needs-backtracking"] else []) ++
-      (if nOut > 0 then ["emit"] else []) ++ (if c.tol ≠ 0 then ["tolerance"] else []) ++
+      (if nOut > 0 then ["emit"] else []) ++ (if c.tol ≠ 0 then ["tolerance"] else []) ++ (if c.tol > 0 && Kap.C16.zeroOff % c.tol ≠ 0 then ["tolerance-not-dividing-go-zero-offset"] else []) ++
       (if bks.any (fun b => (choose c.exprs.length b).any (fun s => (assignBT (combMatch c) c.exprs.length 0 s).isNone)) then ["subset-rejected"] else []) ++ common)
   | .groupBy c =>
     tag "groupBy" ((if c.all then ["star"] else ["listed"]) ++ (if c.excl ≠ [] then ["exclude"] else []) ++
